@@ -1,11 +1,11 @@
 SPECIFICATION FairSpec
 CONSTANTS
-  Addr <- AddrRestart
-  Gaps <- GapsRestart
+  Addr <- Addr2
+  Gaps <- GapsFixed2
   T = 10
   D = 1
-  MaxEvents = 4
-  MaxFails = 0
+  MaxEvents = 3
+  MaxFails = 2
   Backoff = FALSE
   Closed = TRUE
   ObserveCb = TRUE
